@@ -38,10 +38,11 @@ PROPOSED_FINDINGS = [
   "matcher": "module contains an identifier that is not in res_kwd but whose '-'->'_' image is (and-eq, wchar-t, ...); failure is g++ on the emitted header",
   "lean_counterexample": "Asn1c.Props.C10.not_reserved_hyphen_cex"},
  {"id": "F81", "property": "C10", "status": "known",
-  "what": "a type reference whose C name collides with a skeleton typedef (INTEGER-t -> struct INTEGER_t / INTEGER_t_t) is accepted (exit 0) but the emitted C does not compile",
+  "what": "a type reference whose C name equals a skeleton typedef (INTEGER-t -> 'typedef struct INTEGER_t {...} INTEGER_t_t' next to the skeleton's 'typedef ... INTEGER_t') is accepted (exit 0); "
+          "legal C (struct tags have their own name space) but the emitted header is rejected by g++ (using typedef-name after struct)",
   "witness": {"module": "M DEFINITIONS AUTOMATIC TAGS ::= BEGIN INTEGER-t ::= SEQUENCE { a INTEGER } END", "opts": [],
-              "c_output": "error: 'INTEGER_t' redeclared / using typedef-name after struct"},
-  "matcher": "module defines a type named <SkeletonType>-t (its C name equals an existing skeleton typedef)"},
+              "c_output": "INTEGER-t.h: error: using typedef-name 'INTEGER_t' after 'struct'"},
+  "matcher": "module defines a type named <SkeletonType>-t (its C name equals an existing skeleton typedef); failure is g++ on the emitted header"},
  {"id": "F82", "property": "C10", "status": "known",
   "what": "an empty value range (lower bound > upper bound, e.g. INTEGER (5..1)) makes asn1c abort on a failed assertion in asn1fix_crange.c (_range_overlap / _range_canonicalize) instead of a diagnostic",
   "witness": {"module": "M DEFINITIONS AUTOMATIC TAGS ::= BEGIN T ::= INTEGER (5..1) END", "opts": [],
@@ -334,12 +335,10 @@ def classify(res):
         if res["stderr_empty"]: return [("silent-nonzero-exit", None, f"rc={res['rc']}")]
         return []
     for f, msg in res.get("compile_errors") or []:
-        tn = {n for n in type_names_of(text) if cgen.c_ident(n) + "_t" in skel_typedef_names() or cgen.c_ident(n) in skel_typedef_names()}
         if re.search(r"DEFAULT\s+-\d", text) and re.search(r"before .-. token|asn_DFL_\d+\w*-", msg): out.append(("compile", "F43", f + ": " + msg))
         elif re.search(r"asn_DEF_Member_\d+. undeclared", msg) and re.search(r"OF\s+(\[[^\]]*\]\s*(IMPLICIT|EXPLICIT)?\s*)?INTEGER\s*\(", text): out.append(("compile", "F44", f + ": " + msg))
         elif "-fno-constraints" in res["opts"] and re.search(r"asn_(OER|PER)_memb_\w+_constr_\d+. undeclared", msg): out.append(("compile", "F84", f + ": " + msg))
         elif "#error" in msg and "cannot be determined" in msg: out.append(("compile", "F85", f + ": " + msg))
-        elif tn: out.append(("compile", "F81", f + ": " + msg))
         else: out.append(("compile", None, f + ": " + msg))
     if out: return out
     if res.get("link_error"):
@@ -352,6 +351,7 @@ def classify(res):
     for h, msg in res.get("cxx_errors") or []:
         ids = set(re.findall(r"\b([a-z][\w-]*)\b", text))
         if ids & HYPHEN_KW and re.search(r"(%s)" % "|".join(k.replace("-", "_") for k in ids & HYPHEN_KW), msg): out.append(("c++-header", "F80", h + ": " + msg))
+        elif "typedef-name" in msg and {n for n in type_names_of(text) if cgen.c_ident(n) in skel_typedef_names()}: out.append(("c++-header", "F81", h + ": " + msg))
         else: out.append(("c++-header", None, h + ": " + msg))
     if res.get("dump_error"): out.append(("descriptor-dump", None, res["dump_error"]))
     return out
